@@ -149,6 +149,10 @@ func (vc *VC) loopHead(fr *Frame, blk *ssa.BasicBlock, ins []*Edge, name string)
 		if sv.Ty != nil {
 			n.assume(vc.valueFact(n.env, nv, sv.Ty))
 		}
+		if strings.Contains(k, "$rangeindex$") {
+			// hidden index of a range loop: starts at -1 and is only incremented while below the length (SSA construction)
+			n.assume(sAnd(app("<=", "(- 1)", nv), app("<=", nv, maxLen)))
+		}
 	}
 	// alloc only grows
 	if vc.loopMods[key]["alloc"] {
@@ -229,11 +233,6 @@ func (vc *VC) loopInvariants(fr *Frame, blk *ssa.BasicBlock, at *Node, e *Edge, 
 			continue
 		}
 		j++
-		f, err := sc.formula(c.E)
-		if err != nil {
-			vc.specError(c, err)
-			continue
-		}
 		kind := "inv-init"
 		if phase == "preserve" {
 			kind = "inv-pres"
@@ -242,9 +241,23 @@ func (vc *VC) loopInvariants(fr *Frame, blk *ssa.BasicBlock, at *Node, e *Edge, 
 		if c.Label != "" {
 			lbl = c.Label
 		}
-		ob := vc.newObl(fmt.Sprintf("%s/loop#%d/%s/%s", relKey(fr.fn), fr.loopOrd[blk], phase, lbl), kind, c.Tags, c.Text, token.NoPos)
-		ob.Pos = fmt.Sprintf("%s:%d", strings.TrimPrefix(c.File, "/repo/"), c.Line)
-		e.asserts = append(e.asserts, Cmd{Assert: true, F: f, Ob: ob})
+		parts := conjuncts(c.E)
+		for k, pe := range parts {
+			f, err := sc.formula(pe)
+			if err != nil {
+				vc.specError(c, err)
+				continue
+			}
+			name := fmt.Sprintf("%s/loop#%d/%s/%s", relKey(fr.fn), fr.loopOrd[blk], phase, lbl)
+			text := c.Text
+			if len(parts) > 1 {
+				name = fmt.Sprintf("%s.%d", name, k+1)
+				text = pe.String()
+			}
+			ob := vc.newObl(name, kind, c.Tags, text, token.NoPos)
+			ob.Pos = fmt.Sprintf("%s:%d", strings.TrimPrefix(c.File, "/repo/"), c.Line)
+			e.asserts = append(e.asserts, Cmd{Assert: true, F: f, Ob: ob})
+		}
 	}
 }
 
@@ -283,6 +296,7 @@ func (vc *VC) exec(fr *Frame, n *Node, instr ssa.Instruction) *Node {
 		}
 		vc.nilCheck(fr, n, lv, in.Pos())
 		vc.guardCheck(fr, n, lv, true, in.Pos())
+		vc.monotoneCheck(fr, n, lv, vc.val(fr, in.Val), in.Pos())
 		if ci, ok := fr.clos[in.Val]; ok {
 			if a, isAlloc := in.Addr.(*ssa.Alloc); isAlloc {
 				fr.cellClos[a] = ci
